@@ -360,18 +360,15 @@ def run(ctx, col: Collector):
                           f'{rc.name}.render_db never reads db.{c}: those elements are missing from the database text',
                           node=m.node, file=m.file)
             # the ref filter is `not ref.inline`
-            filt = [n for n in walk_no_nested(m.node) if isinstance(n, (ast.GeneratorExp, ast.ListComp))
-                    and any(access_path(gg.iter) == f'{dbp}.refs' for gg in n.generators)]
-            okf = False
-            for f in filt:
-                for gg in f.generators:
-                    for cond in gg.ifs:
-                        t = term(cond, True)
-                        if t == ('not', ('truthy', f'{gg.target.id}.inline')) if isinstance(gg.target, ast.Name) else False:
-                            okf = True
-            col.check(okf, 'C16-compose', f'{rc.name}.render_db:non-inline-refs',
-                      'database level lists exactly the references that are not inline',
-                      f'{rc.name}.render_db does not select references with `not ref.inline`', node=m.node, file=m.file)
+            from .common import select_filter
+            stf, ff = select_filter(m.node, f'{dbp}.refs', [('not', ('truthy', 'VAR.inline'))])
+            cons = f'{rc.name}.render_db:non-inline-refs'
+            if stf == 'ok':
+                col.ok('C16-compose', cons, 'database level lists exactly the references that are not inline', node=m.node, file=m.file)
+            elif stf == 'bad':
+                col.bad('C16-compose', cons, f'{rc.name}.render_db selects references under {ff["conds"]}; expected exactly `not ref.inline`', node=m.node, file=m.file)
+            else:
+                col.unk('C16-compose', cons, f'{rc.name}.render_db does not iterate {dbp}.refs in a recognised form', node=m.node, file=m.file)
     guarded(col, 'C16-compose', 'render_db', composition)
 
     guarded(col, 'C16-pure', 'render-closure', lambda: purity_obligations(ctx, col, 'C16-pure'))
